@@ -6,7 +6,7 @@ namespace Rustemo.Glr
 open Rustemo
 
 /-- what holds after the reducer phase of level `F` (graph `g1` after `create_frontier`) -/
-structure Mid (env : Env) (tok : Nat → Tok) (F : Nat) (LF : Pos) (g1 : Gss) (acc0 : List Nat) (sub : SubFrontier)
+structure Mid (env : Env) (tok : Nat → Tok) (F : Nat) (LF : Pos) (base : List Nat) (g1 : Gss) (acc0 : List Nat) (sub : SubFrontier)
     (st3 : St) : Prop where
   st : StOk env F st3
   gu : GU F st3.gss
@@ -17,6 +17,11 @@ structure Mid (env : Env) (tok : Nat → Tok) (F : Nat) (LF : Pos) (g1 : Gss) (a
   tp : ∀ (h : Nat) (hd : Head), st3.gss.heads[h]? = some hd → hd.frontier = F →
     hd.pos = LF ∧ ∀ t, hd.tok = some t → t = tok F
   am : ∀ x ∈ acc0, x ∈ st3.accepted
+  nsym : ∀ (h : Nat) (hd : Head), st3.gss.heads[h]? = some hd → hd.frontier = F →
+    h ∈ base ∨ (env.g.nterms ≤ env.t.symAt hd.state ∧ hd.state ≠ 0)
+  /-- one head per state on the level -/
+  hfunF : ∀ (h h' : Nat) (hd hd' : Head), st3.gss.heads[h]? = some hd → st3.gss.heads[h']? = some hd' → hd.frontier = F →
+    hd'.frontier = F → hd.state = hd'.state → h = h'
 
 theorem reducer_phase {env : Env} (hT : TableOk env) (hC : CompleteRN env.g env.t) (hW : GWF env.g) {tok : Nat → Tok}
     {F : Nat} {LF : Pos} {fuel : Nat} {g1 : Gss} {acc0 : List Nat} {base : List Nat} {fr : Frontier} {sub0 : SubFrontier}
@@ -32,9 +37,12 @@ theorem reducer_phase {env : Env} (hT : TableOk env) (hC : CompleteRN env.g env.
     (halive : ∀ i ∈ base, ∀ hd : Head, g1.heads[i]? = some hd → env.t.cell hd.state (tok F).kind ≠ [] →
       (hd.state, i) ∈ sub0)
     (hbase : ∀ i ∈ base, ∃ hd : Head, g1.heads[i]? = some hd)
+    (hbfun : ∀ i ∈ base, ∀ j ∈ base, ∀ (hd hd' : Head), g1.heads[i]? = some hd → g1.heads[j]? = some hd' →
+      hd.state = hd'.state → i = j)
+    (hbterm : ∀ i ∈ base, ∀ hd : Head, g1.heads[i]? = some hd → hd.state = 0 ∨ env.t.symAt hd.state < env.g.nterms)
     {qs : List (List Reduction)} {st2 st3 : St}
     (hip : initialProcess env ⟨g1, [], acc0⟩ fr = .ok (qs, st2)) (hra : reduceAll env fuel fr qs st2 = .ok st3) :
-    ∃ sub, Mid env tok F LF g1 acc0 sub st3 ∧ ∀ x ∈ sub0, x ∈ sub := by
+    ∃ sub, Mid env tok F LF base g1 acc0 sub st3 ∧ ∀ x ∈ sub0, x ∈ sub := by
   rcases hshape with ⟨hfr, hsb⟩ | ⟨hfr, _⟩
   · -- no head has a lookahead: nothing happens
     subst hfr; subst hsb
@@ -47,7 +55,8 @@ theorem reducer_phase {env : Env} (hT : TableOk env) (hC : CompleteRN env.g env.
     injection hra with hra
     subst hra
     refine ⟨[], ⟨hs1, hu1, FrameLt.refl _ _, ⟨fun _ _ h => by simp at h, ?_, ?_⟩, fun _ _ _ h => by simp at h,
-      fun _ _ h => by simp at h, htp, fun x hx => hx⟩, fun _ h => h⟩
+      fun _ _ h => by simp at h, htp, fun x hx => hx, fun h hd hh hl => Or.inl (hlevel h hd hh hl),
+      fun h h' hd hd' hh hh' hl hl' hs => hbfun h (hlevel h hd hh hl) h' (hlevel h' hd' hh' hl') hd hd' hh hh' hs⟩, fun _ h => h⟩
     · intro u p pr P s' hk
       obtain ⟨v, _, s, hin⟩ := hk.chain
       simp at hin
@@ -98,13 +107,65 @@ theorem reducer_phase {env : Env} (hT : TableOk env) (hC : CompleteRN env.g env.
         exact ⟨hd, tk, k1, k2, k3⟩
     obtain ⟨hqs, hrc⟩ := start_closure hC hs1.g hU hsub0 hsp rfl
     have hb : RB env F (tok F).kind (tok F) LF base acc0 sub0 g1 ⟨g1, r.1, r.2.1, r.2.2, sub0⟩ := by
-      refine ⟨FrameLt.refl _ _, hsp.shift, hsp.accept, ?_, htp, hsp.a_mono, fun x hx => hx⟩
-      intro h hd hh hl
-      exact Or.inl (hlevel h hd hh hl)
-    obtain ⟨m1, m2, m3, m4, m5, m6⟩ := reducerLoop_closureX hT hC hW (RB.extra env F (tok F).kind (tok F) LF base acc0 sub0 g1)
+      refine ⟨FrameLt.refl _ _, hsp.shift, hsp.accept, ?_, htp, hsp.a_mono, fun x hx => hx, ?_⟩
+      · intro h hd hh hl
+        exact Or.inl (hlevel h hd hh hl)
+      · intro s h hm
+        obtain ⟨hd, k1, _, k3, _⟩ := hsub0 s h hm
+        exact Or.inl (hlevel h hd k1 k3)
+    obtain ⟨m1, m2, m3, m4, m5, m6⟩ := reducerLoop_closureX hT hC hW (RB.extra hT F (tok F).kind (tok F) LF base acc0 sub0 g1)
       fuel _ rs' hI hU hqs hrc hb hloop
-    refine ⟨rs'.sub, ⟨⟨m1.g, m1.lists.shifts, m1.lists.acc⟩, m3.toGU, m5.frame, ⟨?_, ?_, ?_⟩, m5.sc, m5.ac, m5.tp, m5.am⟩,
-      m5.sm⟩
+    have hnsym : ∀ (h : Nat) (hd : Head), rs'.gss.heads[h]? = some hd → hd.frontier = F →
+        h ∈ base ∨ (env.g.nterms ≤ env.t.symAt hd.state ∧ hd.state ≠ 0) := by
+      intro h hd hh hl
+      rcases m5.li h hd hh hl with hbm | ⟨s, hm⟩
+      · exact Or.inl hbm
+      · obtain ⟨x, k1, k2, _⟩ := m1.sub s h hm
+        rw [hh] at k1; injection k1 with k1; subst k1
+        rw [k2]; exact m5.ns s h hm
+    -- base heads keep their state
+    have hbst : ∀ i ∈ base, ∀ hd : Head, rs'.gss.heads[i]? = some hd →
+        ∃ hd1 : Head, g1.heads[i]? = some hd1 ∧ hd1.state = hd.state := by
+      intro i hi hd hh
+      obtain ⟨hd1, hh1⟩ := hbase i hi
+      obtain ⟨hd', k1, k2, _⟩ := m2.heads i hd1 hh1
+      have k1' : rs'.gss.heads[i]? = some hd' := k1
+      rw [hh] at k1'; injection k1' with k1'; subst k1'
+      exact ⟨hd1, hh1, k2.symm⟩
+    have hfunF : ∀ (h h' : Nat) (hd hd' : Head), rs'.gss.heads[h]? = some hd → rs'.gss.heads[h']? = some hd' →
+        hd.frontier = F → hd'.frontier = F → hd.state = hd'.state → h = h' := by
+      -- a head that is not a base head is not in a state a base head can have
+      have hmix : ∀ (h h' : Nat) (hd hd' : Head), rs'.gss.heads[h]? = some hd → rs'.gss.heads[h']? = some hd' →
+          h ∈ base → (env.g.nterms ≤ env.t.symAt hd'.state ∧ hd'.state ≠ 0) → hd.state = hd'.state → False := by
+        intro h h' hd hd' hh hh' hb ⟨q1, q2⟩ hs
+        obtain ⟨hd1, hh1, hs1⟩ := hbst h hb hd hh
+        rcases hbterm h hb hd1 hh1 with k | k
+        · rw [hs1, hs] at k; exact q2 k
+        · rw [hs1, hs] at k; omega
+      intro h h' hd hd' hh hh' hl hl' hs
+      rcases m5.li h hd hh hl with hb | ⟨s, hm⟩
+      · rcases m5.li h' hd' hh' hl' with hb' | ⟨s', hm'⟩
+        · obtain ⟨x, hx, hxs⟩ := hbst h hb hd hh
+          obtain ⟨y, hy, hys⟩ := hbst h' hb' hd' hh'
+          exact hbfun h hb h' hb' x y hx hy (by rw [hxs, hys, hs])
+        · rcases hnsym h' hd' hh' hl' with hb' | hnt
+          · obtain ⟨x, hx, hxs⟩ := hbst h hb hd hh
+            obtain ⟨y, hy, hys⟩ := hbst h' hb' hd' hh'
+            exact hbfun h hb h' hb' x y hx hy (by rw [hxs, hys, hs])
+          · exact absurd (hmix h h' hd hd' hh hh' hb hnt hs) id
+      · rcases m5.li h' hd' hh' hl' with hb' | ⟨s', hm'⟩
+        · rcases hnsym h hd hh hl with hb | hnt
+          · obtain ⟨x, hx, hxs⟩ := hbst h hb hd hh
+            obtain ⟨y, hy, hys⟩ := hbst h' hb' hd' hh'
+            exact hbfun h hb h' hb' x y hx hy (by rw [hxs, hys, hs])
+          · exact absurd (hmix h' h hd' hd hh' hh hb' hnt hs.symm) id
+        · obtain ⟨x, k1, k2, _⟩ := m1.sub s h hm
+          obtain ⟨y, j1, j2, _⟩ := m1.sub s' h' hm'
+          rw [hh] at k1; injection k1 with k1; subst k1
+          rw [hh'] at j1; injection j1 with j1; subst j1
+          exact m3.subFun s h h' hm (by rw [← k2, hs, j2]; exact hm')
+    refine ⟨rs'.sub, ⟨⟨m1.g, m1.lists.shifts, m1.lists.acc⟩, m3.toGU, m5.frame, ⟨?_, ?_, ?_⟩, m5.sc, m5.ac, m5.tp, m5.am,
+      hnsym, hfunF⟩, m5.sm⟩
     · intro s h hm
       obtain ⟨hd, k1, k2, k3, _⟩ := m1.sub s h hm
       exact ⟨hd, k1, k2, k3⟩
